@@ -6,7 +6,7 @@ From Boltons Require Import Lib.Prelude Spec.C09_Spec Model.C09_Model.
 From Boltons Require Import Proofs.C09_Strip Proofs.C09_Chunked Proofs.C09_Split Proofs.C09_Group.
 From Boltons Require Import Proofs.C09_Windowed Proofs.C09_Ranges Proofs.C09_Redundant Proofs.C09_WsLaws.
 From Boltons Require Import Model.C09_PyRanges Proofs.C09_PyRangesProof Gen.C09_Gen Proofs.C09_GenTie.
-From Boltons Require Import Gen.C09_Src Proofs.C09_SrcLoops Proofs.C09_SrcStrip.
+From Boltons Require Import Gen.C09_Src Proofs.C09_SrcLoops Proofs.C09_SrcStrip Proofs.C09_SrcRedundantSafe.
 From Coq Require Import Permutation.
 From Boltons Require Import Proofs.C09_Conserve.
 
@@ -399,6 +399,21 @@ Proof.
   exact (fun src kt kf => conj (gen_redundant_false_is_model kt kf src) (gen_redundant_true_is_model kt kf src)).
 Qed.
 Print Assumptions C09_redundant_source_is_model.
+
+(* the subscript reads of redundant (seen[k], redundant_groups[k],
+   redundant_groups[k][1]) never raise KeyError / IndexError: the CHECKED
+   translation (every read guarded, None = exception) is Some of the unchecked *)
+Theorem C09_redundant_source_reads_never_raise :
+  forall src key_truthy key_func,
+    Gredundant_groups_false_chk src key_truthy key_func
+    = Some (Gredundant_groups_false src key_truthy key_func)
+    /\ Gredundant_groups_true_chk src key_truthy key_func
+       = Some (Gredundant_groups_true src key_truthy key_func).
+Proof.
+  exact (fun src kt kf => conj (redundant_false_reads_never_raise kt kf src)
+                               (redundant_true_reads_never_raise kt kf src)).
+Qed.
+Print Assumptions C09_redundant_source_reads_never_raise.
 
 (* chunked_iter: the `while True` / islice loop over the shared iterator, with
    the out-of-fuel outcome carried along (None on both sides); postprocess is
